@@ -8,7 +8,9 @@ from modq import ROUTINES, true_q, canon, close, pub, arr_close, CHAN_FIELDS, fu
 ID = 'C07'
 COQ_FILES = ['Base/Mat.v', 'Base/SumQ.v', 'Base/ListX.v', 'Model/Modularity.v', 'Model/ModularityGood.v',
              'Proofs/ModularitySums.v', 'Proofs/ModularityQ.v', 'Proofs/ModularityGain.v', 'Proofs/ModularityRun.v',
-             'Proofs/ModularityRunSign.v', 'Proofs/ModularityRunB.v', 'Proofs/ModularityGood.v', 'Properties/C07.v']
+             'Proofs/ModularityRunSign.v', 'Proofs/ModularityRunB.v', 'Proofs/ModularityGood.v', 'Model/ModularitySelect.v',
+             'Proofs/ModularitySelect.v', 'Proofs/ModularityAuto.v', 'Proofs/ModularityBound.v', 'Proofs/ModularityRunFull.v',
+             'Properties/C07.v']
 THEOREMS = ['C07_init_bk_inv_louvain', 'C07_init_bk_inv_louvain_sign', 'C07_init_bk_inv_finetune',
             'C07_init_bk_inv_finetune_dir', 'C07_init_bk_inv_finetune_sign', 'C07_move_preserves_bk_inv',
             'C07_move_preserves_bk_inv_dir', 'C07_move_preserves_bk_inv_sign', 'C07_move_preserves_bk_inv_B',
@@ -20,7 +22,14 @@ THEOREMS = ['C07_init_bk_inv_louvain', 'C07_init_bk_inv_louvain_sign', 'C07_init
             'C07_louvain_dir_monotone_refuted', 'C07_init_bk_inv_louvain_dirfix',
             'C07_louvain_und_run_monotone', 'C07_louvain_und_sign_run_monotone', 'C07_community_louvain_run_monotone',
             'C07_louvain_und_run_monotone_checked', 'C07_louvain_und_sign_run_monotone_checked',
-            'C07_community_louvain_run_monotone_checked']
+            'C07_community_louvain_run_monotone_checked',
+            # the decision rule inside the model: no hypothesis on the run (Model/ModularitySelect.v)
+            'C07_argmax_first_spec', 'C07_select_some', 'C07_select_none', 'C07_sweeps_good_run',
+            'C07_run_finetune_und_monotone', 'C07_run_finetune_dir_monotone', 'C07_run_finetune_sign_monotone',
+            'C07_finetune_und_auto_never_worse', 'C07_finetune_dir_auto_never_worse', 'C07_finetune_sign_auto_never_worse',
+            'C07_louvain_und_auto_monotone', 'C07_louvain_und_sign_auto_monotone', 'C07_community_louvain_auto_monotone',
+            'C07_finetune_und_restart', 'C07_finetune_dir_restart', 'C07_finetune_sign_restart',
+            'C07_community_louvain_restart']
 RULE = ('same generator as C02 (networks n=3..9, integer weights 0..4, signed/binary/directed variants, gamma in '
         '{1, 3/4, 5/4, 13/10}, all qtypes/objectives, random / one-block / shuffled-singleton / non-contiguous initial '
         'partitions); every accepted move of every run is checked; non-trivial = at least one accepted move; distinct by '
@@ -94,9 +103,15 @@ def expected_channels(case, prev_full, k, m):
     for A, tr in mats:
         if tr:
             A = [[A[j][i] for j in range(k)] for i in range(k)]
-        knm = [[sum(A[i][j] for j in range(k) if m[j] == t + 1) for t in range(k)] for i in range(k)]
+        knm = [[0] * k for _ in range(k)]
+        km = [0] * k
         deg = [sum(A[i]) for i in range(k)]
-        km = [sum(deg[j] for j in range(k) if m[j] == t + 1) for t in range(k)]
+        for j in range(k):
+            if 1 <= m[j] <= k:
+                km[m[j] - 1] += deg[j]
+                for i in range(k):
+                    if A[i][j]:
+                        knm[i][m[j] - 1] += A[i][j]
         out.append((knm, km))
     return out
 
@@ -119,6 +134,7 @@ def run(ctx):
             hier = fn in ('modularity_louvain_und', 'modularity_louvain_dir')
             try:
                 ci, q, levels = modq.call_impl(case, hierarchy=False)
+                perms = modq.LAST_PERMS           # every rng.permutation of the run, in call order (recording RandomState)
                 if hier:
                     cih, qh, _ = modq.call_impl(case, hierarchy=True)
             except Timeout:
@@ -129,10 +145,12 @@ def run(ctx):
             nmoves = sum(len(L['moves']) for L in levels)
             ctx.case(pc, nontrivial=nmoves > 0, sample_every=97)
             ctx.count('fn:' + fn); ctx.count('family:' + case['family']); ctx.count('n=%d' % n)
-            ctx.count('gamma=' + case['gamma']); ctx.count('moves', nmoves)
+            ctx.count('gamma=' + case['gamma']); ctx.count('moves', nmoves); ctx.count('weights:' + case.get('weights', 'int'))
+            ctx.count('dtype:' + case.get('dtype', 'float')); ctx.count('seed:' + ('None' if case['seed'] is None else 'int'))
             start = canon(case['ci']) if case.get('ci') is not None else list(range(1, n + 1))
             q_start = true_q(case, start)
             fac = modq.gain_factor(case)
+            gx = 1e-13 * float(modq.gain_scale(case))    # float rounding of a gain: ~1e-16 of the terms it is the difference of
             # ---- every accepted move: bookkeeping, claimed gain, true change of Q
             full = start
             for lvl, L in enumerate(levels):
@@ -161,7 +179,7 @@ def run(ctx):
                             break
                     qnew = true_q(case, newfull)
                     if 'gain' in d:
-                        ctx.check(close(fac * (qnew - qcur), d['gain']), fn + ':bookkeeping',
+                        ctx.check(close(fac * (qnew - qcur), d['gain'], extra=gx), fn + ':bookkeeping',
                                   'claimed gain %r of moving node %d to module %d differs from %s*(Q_after - Q_before) = %.12g'
                                   % (d['gain'], d['u'], d['mb'], fac, float(fac * (qnew - qcur))), pc)
                         if det:
@@ -187,7 +205,11 @@ def run(ctx):
                 ctx.count('hier_levels=%d' % len(qh))
             # ---- feeding the output back never lowers Q
             if R.takes_ci:
-                case2 = dict(case); case2['seed'] = case['seed'] + 1
+                case2 = dict(case)
+                if case['seed'] is None:
+                    case2['global_seed'] = case['global_seed'] + 1
+                else:
+                    case2['seed'] = case['seed'] + 1
                 try:
                     ci2, q2, lv2 = modq.call_impl(case2, ci_override=[int(x) for x in ci])
                     q2t = true_q(case, [int(x) for x in ci2])
@@ -199,6 +221,11 @@ def run(ctx):
                 except Exception as e:
                     ctx.fail(fn + ':raises', 'restart raised %r' % (e,), pc)
             lines.append(modq.model_line(case, levels)); pend.append((case, ci, q, levels))
+            if fn != 'modularity_louvain_dir' and perms is not None:
+                # the DECISION RULE itself (dq vector, dq[ma]=0, first-max argmax, > 1e-10, sweeps until no move, `it` bound) run
+                # by the extracted model on the recorded permutation stream: it must pick exactly the moves the code accepted
+                lines.append(modq.auto_line(case, perms)); pend.append((case, None, levels, 'auto'))
+                ctx.count('sweeps', len(perms))
             if fn in GOOD:
                 # hypotheses of the whole-run theorem C07_*_run_monotone_checked, decided by the extracted model
                 lines.append(modq.good_line(case, levels)); pend.append((case, None, None, 'good'))
@@ -223,6 +250,13 @@ def run(ctx):
             if not good_ok:
                 ctx.mismatch(fn + ':good_run', 'an accepted move is illegal or has exact gain <= 0 (decider of the whole-run theorem hypothesis says false)', pc)
             continue
+        if levels == 'auto':
+            verdict, text = modq.compare_auto(case, m, q)
+            ctx.count('select:' + verdict)
+            if verdict == 'mismatch':
+                ctx.mismatch(fn + ':select', 'decision rule (argmax of the exact gain vector with dq[ma]=0, first maximum, > 1e-10, sweeps '
+                             'until no move) on the recorded permutations disagrees with the accepted moves: ' + text, pc)
+            continue
         if levels == 'retained':
             mq = [float(dec_q(x)) for x in m]
             if mq != [float(x) for x in q]:
@@ -239,7 +273,7 @@ def run(ctx):
                 if not d.get('random'):
                     if not mv['gain'] > 0:
                         ctx.mismatch(fn + ':gain_positive', where + ': exact gain %s of an accepted move is not positive' % mv['gain'], pc); bad = True
-                    if 'gain' in d and not close(mv['gain'], d['gain']):
+                    if 'gain' in d and not close(mv['gain'], d['gain'], extra=1e-13 * float(modq.gain_scale(case))):
                         ctx.mismatch(fn + ':gain', where + ': exact gain %s (%.12g) vs claimed %r' % (mv['gain'], float(mv['gain']), d['gain']), pc); bad = True
                 if mv['labels'] != [int(x) for x in d['labels']]:
                     ctx.mismatch(fn + ':labels', where + ': labels differ', pc, mv['labels'], d['labels']); bad = True
